@@ -59,7 +59,21 @@ def run(ctx):
         cfgp = {"ub": rng.choice([1, 2, 4, 8]), "lbnum": rng.choice([0, 1]), "lbden": rng.choice([8, 16]), "dtype": dt}
         script = [("build", data), ("fill", data, 2, True), ("kl", 1, 2), ("fill", other, 3, False), ("kl", 1, 3), ("plotly", 1, 3)]
         t2.append(D.session(cfgp, script))
-    ctx.validate("KdqTree", t2, "random sessions (1-4 dims, up to 400 points) + large fills", sabotage=D.sabotage,
+    # ONE partitioner object built again and again (the detectors never do that, the public class allows it): each build() starts a new
+    # tree, so leaves, counts, divergences and the flattened view are those of a new object built from that sample alone (finding F24)
+    for i in range(40 if q else 300):
+        d = rng.randint(1, 3)
+        cfgp = {"ub": rng.choice([1, 2, 4, 8]), "lbnum": rng.choice([0, 1]), "lbden": 4}
+        script = []
+        for b in range(rng.randint(2, 4)):
+            style = rng.choice(["grid", "clusters", "wide", "flag"])
+            data = D.random_points(rng, rng.randint(1, 60), d, style)
+            other = D.random_points(rng, rng.randint(1, 60), d, style)
+            script += [("build", data), ("fill", other, 2, rng.random() < 0.5), ("kl", 1, 2)]
+            if rng.random() < 0.5:
+                script += [("fill", data, 3, False), ("kl", 2, 3), ("plotly", 1, 2)]
+        t2.append(D.session(cfgp, script))
+    ctx.validate("KdqTree", t2, "random sessions (1-4 dims, up to 400 points) + large fills + rebuilt partitioners", sabotage=D.sabotage,
                  replay=lambda i: {"cfg": t2[i]["cfg"], "script": t2[i]["script"]},
                  nontrivial=lambda t: not t["ev"][0]["tree"]["leaf"])
     # real-valued data: the relational clauses (refill reproduces the build counts, divergence 0) on decimal grids and continuous values
